@@ -106,9 +106,9 @@ def transformations(rng, case):
         for f in case.quant:
             cands = [(a, b) for a in (2.0, 4.0, 0.5, 1024.0) for b in (0.0, 8.0, -64.0)]
             cands = [cands[k] for k in rng.permutation(len(cands))]
-            if rng.random() < 0.4:
+            if rng.random() < 0.7:
                 # large offsets: the spread becomes tiny relative to the magnitude (only exact on columns living on a coarse grid)
-                big = [(1.0, 2.0 ** 20), (8.0, 2.0 ** 24), (0.5, -2.0 ** 22), (1.0, 2.0 ** 30)]
+                big = [(1.0, 2.0 ** 20), (8.0, 2.0 ** 24), (0.5, -2.0 ** 22), (1.0, 2.0 ** 30), (1.0, 2.0 ** 27), (2.0, -2.0 ** 33)]
                 cands = [big[k] for k in rng.permutation(len(big))] + cands
             # maps sending an observed value (a future boundary) exactly onto 0.0 -- zero is falsy, a classic special case
             obs = c.X[f].astype(float).dropna().unique()
